@@ -140,7 +140,7 @@ PROPS = {
     ),
     "C17": dict(
         modules=["JPV.Props.C17"],
-        theorems=["JPV.Props.C17_shuffle_perm", "JPV.Props.C17_merge_interleaves", "JPV.Props.C17_children", "JPV.Props.C17_partial"],
+        theorems=["JPV.Props.C17_shuffle_perm", "JPV.Props.C17_merge_interleaves", "JPV.Props.C17_children", "JPV.Props.C17_partial", "JPV.Props.C17_permitted"],
         tables=[T + "random_sites_model", T + "env_defaults_model"],
         explore=cn.explore_c17,
     ),
